@@ -473,10 +473,13 @@ func checkAEADPlain(r *Report, p *Prog, sc *Scope, rule string) {
 			if len(ret.Results) != 2 || isNilConst(Resolve(ret.Results[0])) {
 				continue
 			}
+			os := rg.Origins(RV{V: ret.Results[0], C: rg.top})
+			if len(os) == 0 {
+				continue // every alternative is nil (`return fail(err)` with a helper that hands back no plaintext)
+			}
 			n++
 			cons := fmt.Sprintf("%s: returned plaintext is Open's result", p.FnName(fn))
 			bad := ""
-			os := rg.Origins(RV{V: ret.Results[0], C: rg.top})
 			for _, o := range os {
 				if isNilConst(Resolve(o.V)) {
 					continue
